@@ -23,8 +23,9 @@ fn check_break_assignment(context: &CheckerContext) -> GenericResult<()> {
             .filter(|activity| activity.activity_type == "break")
             .count();
         let matched_break_count = tour.stops.iter().try_fold(0, |acc, stop| {
-            stop.activities()
-                .windows(stop.activities().len().min(2))
+            // NOTE: each activity is visited once, together with its predecessor in the stop if there is one
+            (0..stop.activities().len())
+                .map(|idx| &stop.activities()[idx.saturating_sub(1)..=idx])
                 .flat_map(|leg| as_leg_info_with_break(context, tour, stop, leg))
                 .try_fold::<_, _, GenericResult<_>>(
                     acc,
@@ -143,7 +144,6 @@ fn as_leg_info_with_break<'a>(
 
     if let Some((from, to)) = leg {
         if let Some((break_activity, vehicle_break)) = once(to)
-            .chain(from.iter().cloned())
             .flat_map(|activity| context.get_activity_type(tour, stop, activity).map(|at| (activity, at)))
             .filter_map(|(activity, activity_type)| match activity_type {
                 ActivityType::Break(vehicle_break) => Some((activity, vehicle_break)),
